@@ -1,4 +1,7 @@
+#[cfg(not(uflow_verif))]
 use std::net;
+#[cfg(uflow_verif)]
+use crate::verif::net;
 
 use crate::half_connection::HalfConnection;
 use crate::SendMode;
